@@ -530,6 +530,9 @@ func sigKey(c sigCase) string { return fmt.Sprintf("%v", c) }
 
 // sigCoq prints the case for the model.
 func sigCoq(c sigCase) string {
+	if _, left := sigLeftModel.Load(sigKey(c)); left {
+		return "" // judged by the direct oracle only (see sigNote)
+	}
 	refused := map[int]bool{}
 	if r, ok := sigRefused.Load(sigKey(c)); ok {
 		refused = r.(map[int]bool)
@@ -537,7 +540,29 @@ func sigCoq(c sigCase) string {
 	return c.Coq(refused)
 }
 
+// sigLeftModel: histories the model does not cover. A failed
+// mediaEngine.updateFromRemoteDescription (class Codec) leaves the MediaEngine
+// partially updated (negotiated flags set before the failure); the model does
+// not carry the MediaEngine, so when such a failure is later followed by a
+// Send-class outcome (startRTPSenders refusing a codec) the model cannot
+// predict it: those histories (about 1 in 10^4 generated ones) are judged by
+// the direct oracle only and counted apart in the input distribution.
+var sigLeftModel sync.Map
+
 func sigNote(c sigCase, tr *sigTrace, v *Verdict) {
+	codecFailed := false
+	for _, st := range tr.Steps {
+		if st.Err == "Codec" {
+			codecFailed = true
+		}
+		if st.Err == "Send" && codecFailed {
+			sigLeftModel.Store(sigKey(c), true)
+			if v.OK {
+				v.Class += "/left-model: send-after-codec-failure"
+			}
+			break
+		}
+	}
 	if len(tr.Refused) > 0 {
 		sigRefused.Store(sigKey(c), tr.Refused)
 		if v.OK {
